@@ -1,11 +1,12 @@
 #!/bin/bash
-# fuzz_phase.sh <ID> <runs-per-worker> [workers]
-# Coverage-guided campaign (libFuzzer via cargo-fuzz, target fuzz_history) with the oracle of
-# property <ID> inside the target. Each worker gets its own fresh corpus copy and its own seed
+# fuzz_phase.sh <ID> <runs-per-worker> [workers] [target]
+# Coverage-guided campaign (libFuzzer via cargo-fuzz) with the oracle of property <ID> inside the
+# target. target = fuzz_history (default: raw histories, buffers verbatim) or fuzz_plan (bytes are
+# decoded into a conformant stream plan). Each worker gets its own fresh corpus copy and its own seed
 # derived from VERIF_SEED. Appends a phase record to /verif/evidence/<ID>.json.
 # Exit 0 = no violation, 1 = violation (VIOLATION line printed), 2 = inconclusive.
 set -u
-ID="$1"; RUNS="$2"; WORKERS="${3:-16}"
+ID="$1"; RUNS="$2"; WORKERS="${3:-16}"; FT="${4:-fuzz_history}"
 SEED="${VERIF_SEED:-0}"
 export CARGO_NET_OFFLINE=true
 TARGET="${NFV_TARGET:-/verif/target}"
@@ -13,13 +14,17 @@ cd /verif/harness || exit 2
 if [ -n "${NFV_REPO:-}" ]; then
   echo "INCONCLUSIVE: fuzz phase does not support NFV_REPO"; exit 2
 fi
-cargo +nightly fuzz build -s none fuzz_history >"$TARGET/fuzz-build.log" 2>&1 || { echo "INCONCLUSIVE: fuzz target build failed"; tail -20 "$TARGET/fuzz-build.log"; exit 2; }
-BIN=/verif/target/x86_64-unknown-linux-gnu/release/fuzz_history
+cargo +nightly fuzz build -s none "$FT" >"$TARGET/fuzz-build.log" 2>&1 || { echo "INCONCLUSIVE: fuzz target build failed"; tail -20 "$TARGET/fuzz-build.log"; exit 2; }
+BIN=/verif/target/x86_64-unknown-linux-gnu/release/$FT
 [ -x "$BIN" ] || { echo "INCONCLUSIVE: $BIN missing"; exit 2; }
-WORK="$TARGET/fuzz-run-$ID"; rm -rf "$WORK"; mkdir -p "$WORK"
-"$TARGET/release/mkcorpus" "$WORK/seeds" 400 >/dev/null || { echo "INCONCLUSIVE: mkcorpus failed"; exit 2; }
-# small seeds only: the campaign works below 4 KiB (large inputs are the stress family's job)
-find "$WORK/seeds" -type f -size +4k -delete
+WORK="$TARGET/fuzz-run-$ID-$FT"; rm -rf "$WORK"; mkdir -p "$WORK"
+if [ "$FT" = fuzz_plan ]; then
+  "$TARGET/release/mkcorpus" --plan "$WORK/seeds" 96 >/dev/null || { echo "INCONCLUSIVE: mkcorpus failed"; exit 2; }
+else
+  "$TARGET/release/mkcorpus" "$WORK/seeds" 400 >/dev/null || { echo "INCONCLUSIVE: mkcorpus failed"; exit 2; }
+  # small seeds only: the campaign works below 4 KiB (large inputs are the stress family's job)
+  find "$WORK/seeds" -type f -size +4k -delete
+fi
 START=$(date +%s)
 PIDS=()
 for i in $(seq 1 "$WORKERS"); do
@@ -33,9 +38,9 @@ END=$(date +%s)
 VIOL=$(grep -h "^VIOLATION property=" "$WORK"/log*.txt | head -1)
 DETAIL=$(grep -h "^violation detail" "$WORK"/log*.txt | head -1)
 BAD=$(grep -L "^exit=0" "$WORK"/log*.txt | wc -l)
-python3 - "$ID" "$WORK" "$RUNS" "$WORKERS" "$((END-START))" "$SEED" <<'PY'
+python3 - "$ID" "$WORK" "$RUNS" "$WORKERS" "$((END-START))" "$SEED" "$FT" <<'PY'
 import json, sys, glob, re
-pid, work, runs, workers, wall, seed = sys.argv[1:7]
+pid, work, runs, workers, wall, seed, tgt = sys.argv[1:8]
 execs = cov = ft = 0
 for f in glob.glob(work + '/log*.txt'):
     t = open(f, errors='replace').read()
@@ -49,13 +54,13 @@ try:
 except Exception:
     sys.exit(0)
 e['coverage'].setdefault('phases', []).append({
-    'phase': 'libFuzzer campaign (cargo-fuzz target fuzz_history, oracle of ' + pid + ' in-target)',
+    'phase': 'libFuzzer campaign (cargo-fuzz target ' + tgt + ', oracle of ' + pid + ' in-target)',
     'kind': 'coverage-guided fuzzing', 'workers': int(workers), 'runs_per_worker': int(runs),
     'executions': execs, 'max_cov_edges': cov, 'max_features': ft, 'seed_base': int(seed) * 1000,
     'max_len': 4096, 'wall_s': int(wall)})
 e['coverage']['evaluations'] = e['coverage'].get('evaluations', 0) + execs
 json.dump(e, open(path, 'w'), indent=1)
-print(f"fuzz phase {pid}: {execs} executions, cov {cov}, features {ft}, {wall}s")
+print(f"fuzz phase {pid} ({tgt}): {execs} executions, cov {cov}, features {ft}, {wall}s")
 PY
 if [ -n "$VIOL" ]; then
   echo "$DETAIL"; echo "$VIOL"
